@@ -7,6 +7,8 @@ package core
 
 //@ pred cvalid(c *Cursor) = c != nil && c.line != nil
 //@ pred cok(c *Cursor) = 0 <= c.pos && c.pos <= len(*c.line) && -1 <= c.mark && c.mark <= len(*c.line) - 1
+// cclamp: the effect of CheckAppend, relative to the old state (line unchanged).
+//@ pred cclamp(c *Cursor) = cok(c) && c.pos == max(0, min(len(*c.line), old(c.pos))) && (old(-1 <= c.mark && c.mark <= len(*c.line) - 1) ==> c.mark == old(c.mark))
 
 //@ func (*Line).Len
 //@   trusted utf8.RuneCountInString(string(rs)) == len(rs) for every rune slice: each rune, valid or not, encodes to bytes that decode as exactly one rune
@@ -19,11 +21,7 @@ package core
 //@   terminates
 //@   requires cvalid(c)
 //@   assigns c.pos, c.mark
-//@   ensures cok(c)
-//@   ensures old(0 <= c.pos && c.pos <= len(*c.line)) ==> c.pos == old(c.pos)
-//@   ensures old(c.pos) < 0 ==> c.pos == 0
-//@   ensures old(c.pos) > len(*c.line) ==> c.pos == len(*c.line)
-//@   ensures old(-1 <= c.mark && c.mark <= len(*c.line) - 1) ==> c.mark == old(c.mark)
+//@   ensures cclamp(c)
 
 //@ func (*Cursor).Inc
 //@   props C06 C01
@@ -56,7 +54,7 @@ package core
 //@   terminates
 //@   requires cvalid(c)
 //@   assigns c.pos, c.mark
-//@   ensures cok(c)
+//@   ensures cclamp(c)
 //@   ensures result == c.pos
 //@   ensures 0 <= result && result <= len(*c.line)
 
@@ -73,6 +71,110 @@ package core
 //@   terminates
 //@   requires cvalid(c)
 //@   assigns c.pos, c.mark
-//@   ensures cok(c)
+//@   ensures cclamp(c)
 //@   ensures c.pos < len(*c.line) ==> result == (*c.line)[c.pos]
 //@   ensures c.pos >= len(*c.line) ==> result == 0
+
+//@ func (*Line).checkPosRange
+//@   props C06 C01
+//@   terminates
+//@   requires l != nil
+//@   pure
+//@   ensures result == max(0, min(len(*l), pos))
+
+//@ func (*Line).Find
+//@   props C06 C01 C16
+//@   terminates
+//@   requires l != nil
+//@   pure
+//@   ensures result == -1 || (0 <= result && result < len(*l) && (*l)[result] == char)
+//@   let cp = max(0, min(len(*l), pos))
+//@   ensures result != -1 && forward ==> result > cp
+//@   ensures result != -1 && !forward ==> result < cp
+//@   ensures forward && result != -1 ==> all(k, cp + 1, result, (*l)[k] != char)
+//@   ensures forward && result == -1 ==> all(k, cp + 1, len(*l), (*l)[k] != char)
+//@   ensures !forward && result != -1 ==> all(k, result + 1, cp, (*l)[k] != char)
+//@   ensures !forward && result == -1 ==> all(k, 0, cp, (*l)[k] != char)
+//@   loop 1 invariant 0 <= pos && pos <= len(*l) && len(*l) > 0
+//@   loop 1 invariant forward ==> pos >= cp && all(k, cp + 1, pos + 1, k < len(*l) ==> (*l)[k] != char)
+//@   loop 1 invariant !forward ==> pos <= cp && all(k, pos, cp, (*l)[k] != char)
+//@   loop 1 decreases ite(forward, len(*l) - pos, pos)
+
+//@ func (*Cursor).onSpace
+//@   props C06 C01
+//@   terminates
+//@   requires cvalid(c)
+//@   assigns c.pos, c.mark
+//@   ensures cclamp(c)
+//@   ensures result <==> c.pos < len(*c.line) && ((*c.line)[c.pos] == ' ' || (*c.line)[c.pos] == '\n' || (*c.line)[c.pos] == '\t')
+
+//@ func (*Cursor).ToFirstNonSpace
+//@   props C06 C01
+//@   terminates
+//@   requires cvalid(c)
+//@   assigns c.pos, c.mark
+//@   ensures len(*c.line) > 0 ==> cok(c)
+//@   ensures len(*c.line) == 0 ==> c.pos == old(c.pos) && c.mark == old(c.mark)
+//@   loop 1 invariant len(*c.line) > 0 && c.pos <= len(*c.line)
+//@   loop 1 decreases ite(forward, len(*c.line) - c.pos, c.pos)
+
+//@ func (*Cursor).OnEmptyLine
+//@   props C06 C01
+//@   terminates
+//@   requires cvalid(c) && 0 <= c.pos && c.pos <= len(*c.line)
+//@   pure
+//@   ensures len(*c.line) == 0 ==> result
+//@   ensures len(*c.line) > 0 && c.pos == 0 ==> (result <==> (*c.line)[0] == '\n')
+//@   ensures len(*c.line) > 0 && c.pos == len(*c.line) ==> (result <==> (*c.line)[c.pos - 1] == '\n')
+//@   ensures 0 < c.pos && c.pos < len(*c.line) ==> (result <==> ((*c.line)[c.pos] == '\n' && (*c.line)[c.pos - 1] == '\n'))
+
+//@ pred ccmd(c *Cursor) = cok(c) && (c.pos == len(*c.line) ==> (len(*c.line) == 0 || (*c.line)[len(*c.line) - 1] == '\n')) && (c.pos < len(*c.line) && (*c.line)[c.pos] == '\n' ==> (c.pos == 0 || (*c.line)[c.pos - 1] == '\n'))
+
+//@ func (*Cursor).CheckCommand
+//@   props C06 C01
+//@   terminates
+//@   requires cvalid(c)
+//@   assigns c.pos, c.mark
+//@   ensures ccmd(c)
+
+//@ func (*Cursor).BeginningOfLine
+//@   props C06 C01
+//@   terminates
+//@   requires cvalid(c)
+//@   assigns c.pos, c.mark
+//@   ensures ccmd(c)
+
+//@ func (*Cursor).EndOfLine
+//@   props C06 C01
+//@   terminates
+//@   requires cvalid(c) && 0 <= c.pos && c.pos <= len(*c.line)
+//@   assigns c.pos, c.mark
+//@   ensures ccmd(c)
+
+//@ func (*Cursor).EndOfLineAppend
+//@   props C06 C01
+//@   terminates
+//@   requires cvalid(c) && 0 <= c.pos && c.pos <= len(*c.line)
+//@   assigns c.pos, c.mark
+//@   ensures cok(c)
+
+//@ func (*Cursor).SetMark
+//@   props C06 C01
+//@   terminates
+//@   requires cvalid(c)
+//@   assigns c.pos, c.mark
+//@   ensures 0 <= c.pos && c.pos <= len(*c.line) && c.mark == c.pos
+
+//@ func (*Cursor).Mark
+//@   props C06 C01
+//@   terminates
+//@   requires c != nil
+//@   pure
+//@   ensures result == c.mark
+
+//@ func (*Cursor).ResetMark
+//@   props C06 C01
+//@   terminates
+//@   requires c != nil
+//@   assigns c.mark
+//@   ensures c.mark == -1
